@@ -134,18 +134,23 @@ Definition escape_block_start (cs : list ascii) : list ascii :=
   end.
 
 (* wrapWords: blanks separate words, a code span is kept whole, an escaped backtick does not open one *)
-Fixpoint wrap_words (cs : list ascii) (cur : list ascii) (in_code escaped : bool) : list (list ascii) :=
+(* fence: the length of the run of backticks that opened the code span we are in (0 outside); run: the length of the
+   run of backticks being read.  A span ends at the next run of the same length (repair of the tree: a flag used to be
+   toggled at every backtick, so a span delimited by several backticks was broken behind its opening delimiter) *)
+Fixpoint wrap_words (cs : list ascii) (cur : list ascii) (fence run : nat) (escaped : bool) : list (list ascii) :=
   match cs with
   | [] => match cur with [] => [] | _ => [rev cur] end
   | c :: r =>
-      let in_code' := if Ascii.eqb c btick && negb escaped then negb in_code else in_code in
-      let escaped' := Ascii.eqb c bslash && negb escaped && negb in_code' in
-      if negb in_code' && (Nat.eqb (code_of c) 32 || Nat.eqb (code_of c) 9 || Nat.eqb (code_of c) 10 || Nat.eqb (code_of c) 13) then
-        match cur with
-        | [] => wrap_words r [] in_code' escaped'
-        | _ => rev cur :: wrap_words r [] in_code' escaped'
-        end
-      else wrap_words r (c :: cur) in_code' escaped'
+      if Ascii.eqb c btick && negb (escaped && Nat.eqb fence 0) then wrap_words r (c :: cur) fence (S run) false
+      else
+        let fence' := if Nat.eqb run 0 then fence else if Nat.eqb fence 0 then run else if Nat.eqb run fence then 0 else fence in
+        let escaped' := Ascii.eqb c bslash && negb escaped && Nat.eqb fence' 0 in
+        if Nat.eqb fence' 0 && (Nat.eqb (code_of c) 32 || Nat.eqb (code_of c) 9 || Nat.eqb (code_of c) 10 || Nat.eqb (code_of c) 13) then
+          match cur with
+          | [] => wrap_words r [] fence' 0 escaped'
+          | _ => rev cur :: wrap_words r [] fence' 0 escaped'
+          end
+        else wrap_words r (c :: cur) fence' 0 escaped'
   end.
 
 Definition nl : ascii := ascii_of_nat 10.
@@ -165,7 +170,7 @@ Fixpoint wrap_lines (words : list (list ascii)) (line : list ascii) (max : nat) 
   end.
 
 Definition wrap_text (o : wopts) (cs : list ascii) : list ascii :=
-  if o_wrap o && Nat.ltb (o_max o) (List.length cs) then wrap_lines (wrap_words cs [] false false) [] (o_max o) else cs.
+  if o_wrap o && Nat.ltb (o_max o) (List.length cs) then wrap_lines (wrap_words cs [] 0 0 false) [] (o_max o) else cs.
 
 (* ---------------- blocks ---------------- *)
 Fixpoint split_lines (cs : list ascii) (cur : list ascii) : list (list ascii) :=
